@@ -525,6 +525,46 @@ def _launch_failures():
     return a
 
 
+def _from_raw_isolation():
+    """C10: what is recorded (args.json / options.json) and passed on the command line is what THIS task declared:
+    RunArguments.from_raw / RunOptions.from_raw of one task never hand out values of another task, also when the
+    values are equal under Python's == but differ in type (1 == True == 1.0)."""
+    import tempfile as _tf
+    from conductor.task_identifier import TaskIdentifier
+    from conductor.utils.run_arguments import RunArguments
+    from conductor.utils.run_options import RunOptions
+
+    a = Acc()
+    ident1, ident2 = TaskIdentifier(pathlib.Path("p"), "t1"), TaskIdentifier(pathlib.Path("p"), "t2")
+    arg_pool = [[1], [True], [1.0], [0], [False], [0.0], [2, "x"], [2.0, "x"], ["1"], []]
+    opt_pool = [{"k": 1}, {"k": True}, {"k": 1.0}, {"k": "1"}, {}]
+
+    def strict(v):
+        return json.dumps(v, sort_keys=True), [type(x).__name__ for x in (v.values() if isinstance(v, dict) else v)]
+    scratch = _mkscratch()
+    try:
+        for pool, cls, which in ((arg_pool, RunArguments, "args"), (opt_pool, RunOptions, "options")):
+            for x in pool:
+                for y in pool:
+                    inp = {"kind": which, "first_task_declares": repr(x), "second_task_declares": repr(y)}
+                    first = cls.from_raw(ident1, type(x)(x))
+                    second = cls.from_raw(ident2, type(y)(y))
+                    a.ev += 1
+                    if x == y and strict(x) != strict(y):
+                        a.nt += 1
+                        a.sample(inp)
+                    out = pathlib.Path(scratch, "o.json")
+                    second.serialize_json(out)
+                    rec = json.loads(out.read_text(encoding="UTF-8"))
+                    if strict(rec) != strict(y):
+                        a.fail("recorded_value_is_the_declared_value", which + "-of-another-task-recorded", inp, strict(y), strict(rec))
+                    elif first.serialize_cmdline() != cls.from_raw(ident1, type(x)(x)).serialize_cmdline():
+                        a.fail("stable", which + "-cmdline-not-stable", inp, "same text", "differs")
+    finally:
+        shutil.rmtree(scratch, ignore_errors=True)
+    return a
+
+
 def run(tier, seed):
     n_proc = min(16, os.cpu_count() or 1)
     mp = multiprocessing.get_context("fork")
@@ -538,6 +578,7 @@ def run(tier, seed):
         t1 = time.time()
         outp, deps_, ino = _lib_checks()
         launch = _launch_failures()
+        fromraw = _from_raw_isolation()
         wall_lib = time.time() - t1
         for c, e, s, l in spawn_job.get(_POOL_TIMEOUT_S):
             cmd.merge(c)
@@ -566,6 +607,10 @@ def run(tier, seed):
         launch.result("C03.spawn.launch_failure_is_a_task_failure", ["C03", "C16"], fn,
                       "output directory blocked by a file / below a file, working directory missing / a file x record_output in {False, True}", True,
                       "distinct (failure, record_output); every case is non-trivial", wall_lib),
+        fromraw.result("C10.from_raw.each_task_records_its_own_declared_values", ["C10", "C07"],
+                       "utils/run_arguments.py::RunArguments.from_raw, utils/run_options.py::RunOptions.from_raw",
+                       "all ordered pairs over 10 argument lists / 5 option dicts that include values equal under == but of different type (1, True, 1.0)", True,
+                       "distinct ordered pairs; non-trivial = the two declarations are == but differ in type", wall_lib),
         outp.result("C07.lib.get_output_path", "C07", "lib/path.py::get_output_path",
                     "COND_OUT in 5 values (absolute, relative, with space, '/') or unset", True,
                     "distinct COND_OUT settings; non-trivial = variable set", wall_lib),
